@@ -3,6 +3,7 @@ import Driver.Ledger
 import Driver.LedgerOracle
 import Driver.Fx
 import Driver.FxCache
+import Driver.FxCrash
 open Driver
 
 def runLedger (c : Case) : Res :=
@@ -23,6 +24,7 @@ def dispatch (c : Case) : Res :=
   | "ledger" => runLedger c
   | "fx" => runFx c
   | "fxcache" => runFxCache c
+  | "fxcrash" => runFxCrash c
   | f => { verdict := "BADCASE", msg := s!"unknown family {f}" }
 
 def main : IO Unit := do
